@@ -94,7 +94,8 @@ func synthesizable(t reflect.Type) bool {
 }
 
 var strPool = []string{"", "a", "X-Custom", "X-D1", "X-D2", "X-D3", "X-Dirty", "Content-Type", "Content-Length", "Connection", "close", "keep-alive", "text/plain", "application/json", "/path?q=1", "http://other.example/x?y=2#f", "k=v", "Cookie", "Set-Cookie", "k", "v", "Trailer", "X-T",
-	"Transfer-Encoding", "chunked", "100-continue", "Expect", "gzip", "Content-Encoding", "multipart/form-data; boundary=b", "GET", "HEAD", "POST", "Host", "evil.example", "Server", "Date", "Location", "7", "User-Agent", "Authorization", "Basic dTpw"}
+	"Transfer-Encoding", "chunked", "100-continue", "Expect", "gzip", "Content-Encoding", "multipart/form-data; boundary=b", "GET", "HEAD", "POST", "Host", "evil.example", "Server", "Date", "Location", "7", "User-Agent", "Authorization", "Basic dTpw",
+	"/..", "/a/../..", "/%2e%2e", "a=b; path=x", "x", "k=v; path=/..; domain=d"}
 
 // genArg draws the description of one argument and returns a factory for it: every run of a
 // program (and every goroutine in the concurrent unit) gets its own fresh value, so byte slices,
@@ -455,11 +456,25 @@ func newRig(cfgs ...int) *rig {
 				panic("dirty handler panics")
 			case 4:
 				ctx.SetConnectionClose()
+			case 5:
+				// the panic passes through framework code that calls back into the handler
+				ctx.Set("k-for-each", "v")
+				ctx.ForEachKey(func(string, interface{}) { panic("callback of ForEachKey panics") })
 			}
 		})
 		probe := func(c context.Context, ctx *app.RequestContext) {
 			r.probePtr = ctx
 			r.dumpProb = dump(ctx)
+			// the key store of the context can be written (a lock left behind by an earlier request
+			// would block here for ever: bounded, so that the case fails instead of the run hanging)
+			setDone := make(chan struct{})
+			go func() { ctx.Set("probe-key", 1); close(setDone) }()
+			select {
+			case <-setDone:
+				r.dumpProb = append(r.dumpProb, "ctx.Set returns = true")
+			case <-time.After(5 * time.Second):
+				r.dumpProb = append(r.dumpProb, "ctx.Set returns = false (still blocked after 5 s)")
+			}
 			ctx.SetStatusCode(200)
 			ctx.SetBodyString("probe-ok")
 		}
@@ -573,7 +588,7 @@ type Case struct {
 	Probe   string `json:"probe_request"`
 }
 
-var endings = []string{"return", "Abort", "AbortWithStatus", "panic+recovery", "SetConnectionClose"}
+var endings = []string{"return", "Abort", "AbortWithStatus", "panic+recovery", "SetConnectionClose", "panic-inside-ForEachKey-callback+recovery"}
 
 func TestC09Context(t *testing.T) {
 	rec := ev.New("context")
@@ -586,7 +601,7 @@ func TestC09Context(t *testing.T) {
 		shared = sharedRigs[cfg]
 		r := shared
 		r.prog = genProgram(t)
-		r.ending = rapid.IntRange(0, 4).Draw(t, "ending")
+		r.ending = rapid.IntRange(0, 5).Draw(t, "ending")
 		shape := rapid.SampledFrom([]string{"same-connection", "same-connection", "next-connection"}).Draw(t, "shape")
 		di := rapid.IntRange(0, len(dirtyReqs)-1).Draw(t, "dirtyRequest")
 		pi := rapid.IntRange(0, len(probeReqs)-1).Draw(t, "probeRequest")
@@ -595,13 +610,25 @@ func TestC09Context(t *testing.T) {
 		r.dumpDirt, r.dumpProb, r.dirtyPtr, r.probePtr = nil, nil, nil, nil
 		var out []byte
 		var res sconn.Result
-		if shape == "same-connection" {
-			res = r.s.Serve(sconn.New([][]byte{[]byte(dirtyReq + probeReq)}, sconn.EOF))
+		// bounded: a handler that blocks for ever on a lock an earlier request left behind in the
+		// recycled context must fail the case, not hang the run
+		served := make(chan struct{})
+		go func() {
+			defer close(served)
+			if shape == "same-connection" {
+				res = r.s.Serve(sconn.New([][]byte{[]byte(dirtyReq + probeReq)}, sconn.EOF))
+			} else {
+				r.s.Serve(sconn.New([][]byte{[]byte(dirtyReq)}, sconn.EOF))
+				res = r.s.Serve(sconn.New([][]byte{[]byte(probeReq)}, sconn.EOF))
+			}
+		}()
+		select {
+		case <-served:
 			out = res.Output
-		} else {
-			r.s.Serve(sconn.New([][]byte{[]byte(dirtyReq)}, sconn.EOF))
-			res = r.s.Serve(sconn.New([][]byte{[]byte(probeReq)}, sconn.EOF))
-			out = res.Output
+		case <-time.After(30 * time.Second):
+			shared = nil
+			sharedRigs[cfg] = nil
+			t.Fatalf("the dirty request and the probe were not served within 30 s: a handler is blocked inside the recycled context (a lock held by an earlier request?)\nending of the previous programs includes %q\nprogram: %+v", endings[5], r.prog)
 		}
 		if res.Panic != nil {
 			shared = nil
@@ -722,7 +749,23 @@ func TestC09Pooled(t *testing.T) {
 		po := pooledObjs[rapid.IntRange(0, len(pooledObjs)-1).Draw(t, "object")]
 		o := po.acquire()
 		var log []string
+		// a path that climbs above the root, before the random calls: the normaliser's answer for it
+		// is "/" however it is written, and where that "/" lives matters once the object is recycled
+		climb := ""
+		if (po.name == "URI" || po.name == "Cookie") && rapid.IntRange(0, 3).Draw(t, "climbingPath") == 0 {
+			climb = rapid.SampledFrom([]string{"/..", "/a/../..", "/%2e%2e", "/x/../../..", "/./.."}).Draw(t, "climb")
+			switch x := o.(type) {
+			case *protocol.URI:
+				x.SetPath(climb)
+			case *protocol.Cookie:
+				x.SetPath(climb)
+			}
+			log = append(log, "SetPath("+climb+")")
+		}
 		n := rapid.IntRange(1, 10).Draw(t, "nCalls")
+		if climb != "" {
+			n = rapid.IntRange(0, 2).Draw(t, "nCallsAfterClimb")
+		}
 		for i := 0; i < n; i++ {
 			vs := subTargets(o)
 			v := vs[rapid.IntRange(0, len(vs)-1).Draw(t, "sub")]
@@ -771,9 +814,81 @@ func TestC09Pooled(t *testing.T) {
 		reused := reflect.ValueOf(o2).Pointer() == reflect.ValueOf(o).Pointer()
 		rec.Case(changed && reused, ev.HashString(po.name, strings.Join(log, ",")), "object-"+po.name, map[bool]string{true: "reused", false: "not-reused"}[reused])
 		got := dumpObj(o2)
-		po.release(o2)
 		if d := diffDumps(got, freshDumpObj); d != "" {
+			po.release(o2)
 			t.Fatalf("%s obtained from Acquire after Release differs from a newly allocated one:%s\ncalls: %v", po.name, d, log)
+		}
+		// ... and it behaves like one: the same short program applied to the recycled object and to a
+		// newly allocated one leaves both in the same state, and neither disturbs what every other
+		// object of the process starts from (the path of a zero URI is "/")
+		fresh2 := po.fresh()
+		_ = dumpObj(fresh2) // looked at in the same way as the recycled one (getters parse lazily)
+		var log2 []string
+		for i := rapid.IntRange(0, 3).Draw(t, "nCallsAfter"); i > 0; i-- {
+			vs, fs := subTargets(o2), subTargets(fresh2)
+			si := rapid.IntRange(0, len(vs)-1).Draw(t, "sub2")
+			ty := vs[si].Type()
+			var cands []int
+			for k := 0; k < ty.NumMethod(); k++ {
+				m := ty.Method(k)
+				if denyCall[m.Name] {
+					continue
+				}
+				ok := true
+				for a := 1; a < m.Type.NumIn(); a++ {
+					in := m.Type.In(a)
+					if m.Type.IsVariadic() && a == m.Type.NumIn()-1 {
+						in = in.Elem()
+					}
+					if !synthesizable(in) {
+						ok = false
+					}
+				}
+				if ok {
+					cands = append(cands, k)
+				}
+			}
+			k := cands[rapid.IntRange(0, len(cands)-1).Draw(t, "method2")]
+			m := ty.Method(k)
+			var mk []func() reflect.Value
+			for a := 1; a < m.Type.NumIn(); a++ {
+				if m.Type.IsVariadic() && a == m.Type.NumIn()-1 {
+					continue
+				}
+				mk = append(mk, genArg(t, m.Type.In(a)))
+			}
+			log2 = append(log2, ty.String()+"."+m.Name)
+			for _, target := range []reflect.Value{vs[si], fs[si]} {
+				var args []reflect.Value
+				for _, f := range mk {
+					args = append(args, f())
+				}
+				func() {
+					defer func() { recover() }() //nolint:errcheck
+					target.Method(k).Call(args)
+				}()
+			}
+		}
+		if climb != "" {
+			// the recycled object and the new one take the same string
+			in := rapid.SampledFrom([]string{"a=b; path=x", "k=v; path=zz; domain=d", "http://h/p?q", "x"}).Draw(t, "parseAfter")
+			for _, target := range []interface{}{o2, fresh2} {
+				switch x := target.(type) {
+				case *protocol.URI:
+					x.Parse(nil, []byte(in))
+				case *protocol.Cookie:
+					x.Parse(in) //nolint:errcheck
+				}
+			}
+			log2 = append(log2, "Parse("+in+")")
+		}
+		usedRecycled, usedFresh := dumpObj(o2), dumpObj(fresh2)
+		po.release(o2)
+		if d := diffDumps(usedRecycled, usedFresh); d != "" {
+			t.Fatalf("%s from Acquire after Release, used like a new one, ends in another state:%s\ncalls before the release: %v\ncalls after it: %v", po.name, d, log, log2)
+		}
+		if zero := string((&protocol.URI{}).Path()); zero != "/" {
+			t.Fatalf("after recycling and reusing a %s the path of a zero protocol.URI is %q: a buffer shared by the whole process was written to\ncalls before the release: %v\ncalls after it: %v", po.name, zero, log, log2)
 		}
 		if changed && reused && rec.WantSample() {
 			rec.Sample(map[string]interface{}{"object": po.name, "calls": log})
